@@ -211,3 +211,9 @@ Theorem C13_ok_in : forall (lower : str -> str) enum vs s v,
   enum_from lower key_unraw guard_unraw name_unraw enum vs s = Ok v -> In v vs /\ lower s = lower (iname v).
 Proof. exact (fun lower enum vs s v H => Proofs.enum_ok_in lower true guard_unraw name_unraw enum vs s v (H : enum_from lower true guard_unraw name_unraw enum vs s = Ok v)). Qed.
 Print Assumptions C13_ok_in.
+
+(** exactly one arm per variant (with C13_arms_sound / C13_arms_complete: no variant lost, none duplicated, none foreign) *)
+Theorem C13_arms_count : forall (lower : str -> str) (kf gf : ident -> str) vs gs',
+  Permutation gs' (groups lower kf vs) -> length (all_arms gf gs') = length vs.
+Proof. exact Proofs.arms_count. Qed.
+Print Assumptions C13_arms_count.
